@@ -1717,8 +1717,10 @@ func parseOpenSSHPrivateKey(key []byte, decrypt openSSHDecryptFunc) (crypto.Priv
 			return nil, err
 		}
 
-		pk := ed25519.PrivateKey(make([]byte, ed25519.PrivateKeySize))
-		copy(pk, key.Priv)
+		pk := ed25519.NewKeyFromSeed(key.Priv[:ed25519.SeedSize])
+		if !bytes.Equal(pk, key.Priv) || !bytes.Equal(pk[ed25519.SeedSize:], key.Pub) {
+			return nil, errors.New("ssh: public key does not match private key")
+		}
 		return &pk, nil
 	case KeyAlgoECDSA256, KeyAlgoECDSA384, KeyAlgoECDSA521:
 		var key openSSHECDSAPrivateKey
